@@ -102,6 +102,12 @@ func scenarios() []scenario {
 		{name: "S11-age-flush-vs-newer-data",
 			pre:     []pkt{seg(1, 0, syn), seg(1, 0, d(0, 2, false))},
 			threads: [][]pkt{{{k: oFlushOlderMid}}, {seg(1, 0, d(2, 4, false))}}},
+		// a connection is closed by an in-order RST while a segment is still queued behind a gap,
+		// and a flusher that has already picked the connection up reaches it afterwards: a closed
+		// connection must be left alone (no hand-over after completion, no second completion)
+		{name: "S12-close-with-queued-pages-vs-flusher",
+			pre:     []pkt{seg(0, 0, syn), seg(0, 0, d(2, 4, false))},
+			threads: [][]pkt{{seg(0, 0, tm.Event{K: tm.RSTAT, A: 0})}, {{k: oFlushOlder}, {k: oFlushAll}}}},
 		// both directions of one established connection are fed at the same moment by two assemblers
 		{name: "S8-both-directions-of-an-established-connection",
 			pre:     []pkt{seg(0, 0, syn), seg(0, 1, syn)},
